@@ -269,7 +269,9 @@ class _Gen:
 
     # ---- one object
 
-    def add_object(self, i):
+    def add_object(self, i, force=None):
+        """`force` = {axis: {"mode", "sk", "size_ref", "pos_kind", "pos_ref"}} pins some choices (motifs)."""
+        force = force or {}
         r = self.r
         name = f"o{i}"
         obj = {"name": name, "pgs": [None] * 3, "prs": [None] * 3, "prp": [None] * 3}
@@ -279,6 +281,8 @@ class _Gen:
             n = self.shape[a]
             E = self.E[a]
             mode = _choice(r, ["free", "size_pos", "two_sided", "size_only", "one_sided"], p=[0.2, 0.36, 0.18, 0.2 if general else 0.07, 0.1])
+            f = force.get(a, {})
+            mode = f.get("mode", mode)
             lo, hi = _rand_interval(r, n)
             oth = self.others(name)
             if mode == "free":
@@ -331,13 +335,19 @@ class _Gen:
             pos_kind = None
             if mode == "size_pos":
                 pos_kind = _choice(r, ["coord", "rel", "prp", "ext"], p=[0.3, 0.4, 0.15, 0.15])
+                pos_kind = f.get("pos_kind", pos_kind)
             else:
                 lo, hi = 0, s  # documented: known size without position starts at the lower volume edge
             # size source
             size_kinds, size_p = ["pgs", "prs", "rel"], ([0.2, 0.1, 0.7] if (general and mode == "size_only") else [0.35, 0.2, 0.45])
             sk = _choice(r, size_kinds, p=size_p)
+            sk = f.get("sk", sk)
             size_pre = True
-            if sk == "rel":
+            if sk == "rel" and "size_ref" in f:
+                o, b = f["size_ref"]
+                self.cons.append(self.size_con(name, a, s, o, b))
+                size_pre = self.pre[(o, b)]
+            elif sk == "rel":
                 cands = [(o, b) for o in oth for b in range(3)]
                 # prefer the same axis
                 cands_same = [(o, b) for (o, b) in cands if b == a]
@@ -373,6 +383,7 @@ class _Gen:
                     late = [x for x in oth if not self.pre[(x, a)]]
                     if late:
                         o = _choice(r, late)
+                o = f.get("pos_ref", o)
                 self.cons.append(self.pos_con(name, a, lo, hi, o))
                 pos_pre = self.pre[(o, a)]
                 if not pos_pre:
@@ -499,8 +510,16 @@ def generate_system(rng, tier, index):
     target = "well_posed" if index % 2 == 0 else "general"
     g = _Gen(rng, target)
     n = int(_choice(rng, [1, 2, 3, 4, 5, 6, 7], p=[0.1, 0.2, 0.25, 0.2, 0.1, 0.08, 0.07]))
+    motif = None
+    if target == "general" and rng.uniform() < 0.4:
+        # motif: A free on axis a; B (static size) placed against A; C sized relative to B's extent on a
+        n = max(n, 3)
+        a = int(rng.integers(0, 3))
+        at = int(rng.integers(0, n - 2))
+        motif = {at: {a: {"mode": "free"}}, at + 1: {a: {"mode": "size_pos", "sk": _choice(rng, ["pgs", "prs"]), "pos_kind": "rel", "pos_ref": f"o{at}"}},
+                 at + 2: {a: {"mode": _choice(rng, ["size_only", "size_pos"], p=[0.7, 0.3]), "sk": "rel", "size_ref": (f"o{at + 1}", a)}}}
     for i in range(n):
-        g.add_object(i)
+        g.add_object(i, None if motif is None else motif.get(i))
     variant = _choice(rng, ["consistent", "under", "over_consistent", "over_inconsistent"], p=[0.5, 0.17, 0.18, 0.15])
     cons = g.cons
     objects = g.objects
@@ -884,6 +903,19 @@ def kinds_used(spec) -> list[str]:
     return sorted(ks)
 
 
+def main_kinds(spec) -> list[str]:
+    """Coarse coverage class: which constraint mechanisms the system uses."""
+    ks = set(kinds_used(spec))
+    out = {k for k in ks if k in ("position", "size", "extend_object", "extend_volume", "free_axis")}
+    if ks & {"grid_coord", "real_coord"}:
+        out.add("coord")
+    if ks & {"pgs", "prs"}:
+        out.add("partial_shape")
+    if "prp" in ks:
+        out.add("partial_position")
+    return sorted(out)
+
+
 def execute_common(spec):
     """Run the schedule, evaluate both oracles.  Returns a dict used by c26/c27."""
     outs = run_system(spec)
@@ -904,6 +936,9 @@ def execute_common(spec):
     stats["placements_failed"] = n_orders - n_ok
     stats["system_success_all_orders"] = int(n_ok == n_orders)
     stats["system_failure_all_orders"] = int(n_ok == 0)
+    outcome = "success_all_orders" if n_ok == n_orders else ("failure_all_orders" if n_ok == 0 else "mixed_orders")
+    stats[f"{fam}_{outcome}"] = 1
+    stats[f"{fam}_placements_checked"] = n_ok
     stats["probe_escaped_exception"] = sum(1 for o in outs if o["escaped"])
     stats["probe_pattern_size_without_position"] = int(bool(pattern_axes(spec)))
     truth = spec.get("truth")
@@ -985,7 +1020,7 @@ def execute_common(spec):
         "rejected": rejected,
         "n_ok": n_ok,
         "digest": h.hexdigest()[:16],
-        "signature_parts": [fam, spec["grid"]["kind"], spec.get("variant"), kinds_used(spec), min(len(spec["objects"]), 4), "ok" if n_ok == n_orders else ("fail" if n_ok == 0 else "mixed")],
+        "signature_parts": [fam, spec["grid"]["kind"], spec.get("variant"), main_kinds(spec), min(len(spec["objects"]), 3), "ok" if n_ok == n_orders else ("fail" if n_ok == 0 else "mixed")],
     }
 
 
